@@ -642,7 +642,7 @@ func (w *worker[T, JobType]) TunePool(concurrency int) error {
 	shrinkPoolSize, minIdleWorkers := oldConcurrency-safeConcurrency, w.numMinIdleWorkers()
 
 	// if current concurrency is greater than the safe concurrency, shrink the pool size
-	for shrinkPoolSize > 0 && w.pool.Len() != minIdleWorkers {
+	for shrinkPoolSize > 0 && w.pool.Len() > minIdleWorkers {
 		if node := w.pool.PopBack(); node != nil {
 			vhook("tune.popped", node)
 			w.pool.Remove(node)
